@@ -165,10 +165,54 @@ class Prop(BaseProp):
                                                   "index-title-top", "index-title-sub", "index-title-frame", "no-top-index"):
                         v["detail"] = f"[{v['cls']}] " + str(v["detail"])
                         v["cls"] = "module-named-index-overwrites-directory-index"
+            # history: the same input is documented once more by this very process, with one more pattern that empties a
+            # processed sub-directory (and then once more without it): every run's toctrees are closed on their own
+            if idx % 6 == 1 and o.ok and not getattr(c, "dangling", None) and "index.cmake" not in {os.path.basename(f) for f in c.tree.files}:
+                subs_ = [d_ for d_ in c.ref.processed_dirs if d_ and d_ not in c.tree.virtual
+                         and any(f_.endswith(".cmake") for f_ in c.tree.files_of(d_))]
+                if subs_:
+                    d_ = rng.choice(subs_)
+                    more = sorted({f_ for f_ in c.tree.files_of(d_) if f_.lower().endswith(".cmake")})
+                    for round_, extra_ in enumerate((more, [])):
+                        out2 = os.path.join(sb, f"again_{round_}")
+                        argv2 = [a_ if a_ != c.out_abs else out2 for a_ in c.argv]
+                        for p_ in extra_:
+                            argv2 += ["-e", p_]
+                        o2 = runner.run_main(argv2, cwd=c.cwd, home=c.home)
+                        res.count("further_runs_of_the_same_input_in_this_process")
+                        if not o2.ok:
+                            continue
+                        dangling, unlisted = self.closure_of(out2)
+                        if dangling:
+                            res.violate("toctree-dangling:later-run-in-the-same-process", f"run {round_ + 2} with extra patterns {extra_}: "
+                                        f"{dangling[:3]}", dict(wit, argv_later=argv2))
+                        if unlisted:
+                            res.violate("page-not-listed:later-run-in-the-same-process", f"run {round_ + 2} with extra patterns {extra_}: "
+                                        f"{unlisted[:3]}", dict(wit, argv_later=argv2))
             if idx % 50 == 0 and "index.rst" in c.got:
                 res.sample = {"argv": c.argv, "patterns": c.patterns, "top_index": open(os.path.join(out, "index.rst")).read(),
                               "written": sorted(c.got)[:15]}
         return res
+
+    @staticmethod
+    def closure_of(out):
+        """(dangling toctree entries, pages not listed by the index of their directory) of the output tree `out`"""
+        got = fsrun.files_under(out) if os.path.isdir(out) else set()
+        dangling, unlisted = [], []
+        for rel in sorted(got):
+            if os.path.basename(rel) != "index.rst":
+                continue
+            d = os.path.dirname(rel)
+            _, ents, _, _ = fsrun.parse_toctree(open(os.path.join(out, rel), encoding="utf-8").read())
+            seen = set(ents)
+            for e in ents:
+                tgt = os.path.normpath(os.path.join(d, e)) if e.endswith("/index.rst") else os.path.normpath(os.path.join(d, e + ".rst"))
+                if tgt not in got:
+                    dangling.append((rel, e))
+            for g in got:
+                if os.path.dirname(g) == d and os.path.basename(g) != "index.rst" and os.path.basename(g)[:-4] not in seen:
+                    unlisted.append(g)
+        return dangling, unlisted
 
     def check_observed(self, merged, tier):
         o = merged["obs"]
